@@ -26,9 +26,13 @@ theorem Trk.anyNotRemovable_iff (ts : List (Trk α S E P)) :
 
 theorem Trk.shouldBeRemoved_iff (d : TrkData α S E P) (children pending : List (Trk α S E P)) :
     Trk.shouldBeRemoved (.node d children pending) = true
-      ↔ d.marked = true ∧ (d.persist = true → d.sounds = [] ∧ d.pendingSounds = [])
+      ↔ d.marked = true ∧ (d.persist = true → d.sounds = [] ∧ d.pendingSounds = []) ∧ pending = []
           ∧ ∀ c ∈ children, Trk.shouldBeRemoved c = true := by
   rw [Trk.shouldBeRemoved]
+  cases pending with
+  | cons p ps => simp
+  | nil =>
+  simp only [List.isEmpty_nil, Bool.not_true, Bool.false_eq_true, if_false, true_and]
   by_cases hany : Trk.anyNotRemovable children = true
   · simp only [hany, if_true]
     obtain ⟨c, hc, hcr⟩ := (Trk.anyNotRemovable_iff children).mp hany
@@ -48,15 +52,17 @@ theorem Trk.shouldBeRemoved_iff (d : TrkData α S E P) (children pending : List 
       exact ⟨fun h => ⟨h, fun e => e.elim, hall⟩, fun h => h.1⟩
 
 mutual
-/-- every track below `t` that the audio thread has inserted (transitively) -/
+/-- every track below `t`, transitively: the sub-tracks the audio thread has inserted and the ones
+    still waiting in a new-resource ring -/
 def Trk.descendants : Trk α S E P → List (Trk α S E P)
-  | .node _ children _ => Trk.descendantsList children
+  | .node _ children pending => Trk.descendantsList children ++ Trk.descendantsList pending
 def Trk.descendantsList : List (Trk α S E P) → List (Trk α S E P)
   | [] => []
   | t :: ts => t :: (Trk.descendants t ++ Trk.descendantsList ts)
 end
 
-/-- a removable track has only removable (hence marked: handle dropped) inserted descendants -/
+/-- a removable track has only removable (hence marked: handle dropped) descendants, and none of them
+    is waiting in a ring -/
 theorem Trk.removable_descendants (t : Trk α S E P) :
     Trk.shouldBeRemoved t = true → ∀ x ∈ Trk.descendants t, Trk.shouldBeRemoved x = true ∧ x.data.marked = true := by
   refine Trk.rec
@@ -65,8 +71,10 @@ theorem Trk.removable_descendants (t : Trk α S E P) :
     (motive_2 := fun ts => (∀ c ∈ ts, Trk.shouldBeRemoved c = true) →
       ∀ x ∈ Trk.descendantsList ts, Trk.shouldBeRemoved x = true ∧ x.data.marked = true) ?_ ?_ ?_ t
   · intro d children pending ihc _ h x hx
-    rw [Trk.descendants] at hx
-    exact ihc ((Trk.shouldBeRemoved_iff d children pending).mp h).2.2 x hx
+    obtain ⟨_, _, hp, hc⟩ := (Trk.shouldBeRemoved_iff d children pending).mp h
+    subst hp
+    rw [Trk.descendants, Trk.descendantsList, List.append_nil] at hx
+    exact ihc hc x hx
   · intro _ x hx; simp [Trk.descendantsList] at hx
   · intro t ts iht ihts h x hx
     rw [Trk.descendantsList] at hx
@@ -102,6 +110,28 @@ theorem Trk.onStartKept_ids (ts : List (Trk α S E P)) :
     by_cases h : Trk.shouldBeRemoved t = true
     · simp [h, ih]
     · simp [h, ih, Trk.onStart_id]
+
+theorem Trk.onStartKept_mem (ts : List (Trk α S E P)) (t : Trk α S E P) (ht : t ∈ ts)
+    (hr : Trk.shouldBeRemoved t = false) : Trk.onStart C t ∈ Trk.onStartKept C ts := by
+  induction ts with
+  | nil => cases ht
+  | cons u us ih =>
+    rw [Trk.onStartKept]
+    rcases List.mem_cons.mp ht with rfl | ht
+    · simp [hr]
+    · split
+      · exact ih ht
+      · exact List.mem_cons_of_mem _ (ih ht)
+
+theorem Trk.onStartList_mem (ts : List (Trk α S E P)) (t : Trk α S E P) (ht : t ∈ ts) :
+    Trk.onStart C t ∈ Trk.onStartList C ts := by
+  induction ts with
+  | nil => cases ht
+  | cons u us ih =>
+    rw [Trk.onStartList]
+    rcases List.mem_cons.mp ht with rfl | ht
+    · simp
+    · exact List.mem_cons_of_mem _ (ih ht)
 
 /-! ### the published state -/
 
